@@ -136,7 +136,8 @@ func (d *Data) Encode() ([]byte, error) {
 	if err := utils.Compress(buf, compressed); err != nil {
 		return nil, err
 	}
-	return compressed.Bytes(), nil
+	// compressed goes back to the pool, return a copy
+	return bytes.Clone(compressed.Bytes()), nil
 }
 
 func (d *Data) Decode(data []byte) error {
